@@ -5,7 +5,8 @@ case = {"chunks": [hex, ...], "desc": str}                      one segmentation
                                                                 both cuts within the first n bytes, byte by byte
 
 Observation (per chunking), after the deliveries up to the first loseConnection():
-  peer=<addr> host=<addr> data=<hex of everything handed to the wrapped protocol> |open|closed
+  peer=<addr> host=<addr> in=<peer>host pairs seen by the wrapped protocol from inside its dataReceived calls, merged | none>
+  data=<hex of everything handed to the wrapped protocol> |open|closed
   addr = "-" (the transport's own address: no header, UNKNOWN, LOCAL, UNSPEC) | T4(hosthex:port) | T6 | U4 | U6 | X(pathhex)
 """
 from __future__ import annotations
@@ -41,9 +42,14 @@ def run_impl(chunks):
     from twisted.protocols.haproxy._wrapper import HAProxyWrappingFactory
 
     got = []
+    seen = []       # what getPeer()/getHost() say to the wrapped protocol from INSIDE each of its dataReceived calls
 
     class App(Protocol):
         def dataReceived(self, d):
+            if d:
+                pair = _addr(self.transport.getPeer(), t.getPeer()) + ">" + _addr(self.transport.getHost(), t.getHost())
+                if not seen or seen[-1] != pair:
+                    seen.append(pair)
             got.append(bytes(d))
 
     closed = []
@@ -62,7 +68,7 @@ def run_impl(chunks):
             break
         p.dataReceived(c)
     return ("peer=" + _addr(p.getPeer(), t.getPeer()) + " host=" + _addr(p.getHost(), t.getHost())
-            + " data=" + b"".join(got).hex() + (" |closed" if closed else " |open"))
+            + " in=" + ("+".join(seen) if seen else "none") + " data=" + b"".join(got).hex() + (" |closed" if closed else " |open"))
 
 
 def split_family(lim, s):
@@ -203,12 +209,16 @@ def oracle1(case, obs):
     chunks = [bytes.fromhex(c) for c in case["chunks"]]
     stream = b"".join(chunks)
     head, state = obs.rsplit(" |", 1)
-    peer, host, data = (x.split("=", 1)[1] for x in head.split(" "))
+    peer, host, seen, data = (x.split("=", 1)[1] for x in head.split(" "))
     ref = reference(stream)
     first = next((c for c in chunks if c), b"")
     if ref[0] in ("valid", "lax"):
         _, rpeer, rhost, payload = ref
         good = state == "open" and peer == rpeer and host == rhost and data == payload.hex()
+        if good and seen != ("none" if not payload else f"{rpeer}>{rhost}"):
+            return Failure(case, f"the wrapped protocol, asking getPeer()/getHost() from inside its dataReceived, saw {seen} instead of "
+                                 f"{rpeer}>{rhost}: the header's addresses must be in place before the first application byte is delivered "
+                                 f"(deliveries of {[len(c) for c in chunks]} bytes)", "addresses-not-known-inside-first-delivery")
         if ref[0] == "lax":
             if state == "closed" and data == "":
                 return None                      # the strict behaviour: silently fine
